@@ -12,7 +12,8 @@ RULE = ("all 400 (dimension 2..5, number 1..100) functions in both tiers: struct
         "Calculate(M_i) = f_i, global minimiser at the class distance with the class radius and value -1, every other minimum strictly higher) and compared with the recorded "
         "reference data (golden/gkls.json, 1e-9 relative), Knuth's published check value of the lagged-Fibonacci generator; sampling on 100 (quick) / all 400 (thorough) "
         "functions: points outside all balls against the paraboloid recomputed by the harness, interior points against the ball minimum, pairs straddling every ball boundary "
-        "at separation 2e-9*rho against a 1e-6 jump allowance, radial probes near every minimiser; 40 (quick) / 400 (thorough) pairs are constructed 6 times each in one process, interleaved, every construction and earlier instances compared with the reference. Non-trivial: every function; distinct = (dimension, number).")
+        "at separation 2e-9*rho against a 1e-6 jump allowance, radial probes near every minimiser; 40 (quick) / 400 (thorough) pairs are constructed 6 times each in one process, interleaved, every construction and earlier instances compared with the reference. Non-trivial: every function; distinct = (dimension, number)."
+       ' A third of the functions are solved a little first (console listener, with / without refinement) and must still equal the golden record.')
 ASSUMPTIONS = ["class parameters (distance/radius) 0.9/0.2, 0.66/0.2, 0.66/0.2, 0.66/0.3 for dimensions 2..5 (the published 'simple' classes)",
                "golden/gkls.json was recorded once from the pinned tree; it anchors 'is always the same function', the structural clauses do not depend on it",
                "continuity is tested across ball boundaries (where the splice is) with an allowance 1e-6 at separation 2e-9*rho; a wrong spline coefficient produces jumps of 1e-2..1"]
